@@ -193,3 +193,10 @@ Lemma filter_zip_map {A B} (f : A -> B) (p : B -> bool) l :
 Proof.
   induction l as [|x r IH]; [reflexivity|]. cbn [map combine filter]. destruct (p (f x)); cbn [map]; rewrite IH; reflexivity.
 Qed.
+
+Lemma mapM_map {A B C} (f : B -> M C) (g : A -> B) l : forall ds, mapM f (map g l) ds = mapM (fun x => f (g x)) l ds.
+Proof.
+  induction l as [|x r IH]; intro ds; [reflexivity|]. cbn [map mapM]. apply bind_ext. intros y d.
+  apply bind_ext2; [apply IH|]. reflexivity.
+Qed.
+
